@@ -67,6 +67,21 @@ func (c *Ctx) computeInfeasible() {
 				continue
 			}
 			bin, ok := iff.Cond.(*ssa.BinOp)
+			if ok && (bin.Op == token.EQL || bin.Op == token.NEQ) {
+				// a sentinel compared with itself (a marker error assigned and tested in the same inlined block)
+				if ux, isX := c.Resolve(bin.X).(*ssa.UnOp); isX && ux.Op == token.MUL {
+					if uy, isY := c.Resolve(bin.Y).(*ssa.UnOp); isY && uy.Op == token.MUL && ux.X == uy.X {
+						if g, isG := ux.X.(*ssa.Global); isG && c.sentinelNonNil(g) {
+							if bin.Op == token.EQL {
+								infeasibleEdges[b] = 1 + 1
+							} else {
+								infeasibleEdges[b] = 0 + 1
+							}
+							continue
+						}
+					}
+				}
+			}
 			if ok {
 				// two integer constants compared (`switch kind {…}` in a helper inlined with a constant kind)
 				if xk, isX := constInt(stripConv(c.Resolve(bin.X))); isX {
